@@ -157,6 +157,11 @@ def run(chk, scratch):
         per_conf[cname] = {"mutations": len(muts), "crash_points_in_scope": len(points), "executed": len(chosen),
                            "distinct_sites": len(by_site), "exhaustive": len(chosen) == len(points)}
 
+        lockish = {e["n"] for e in points if "lock" in os.path.basename(e["path"]) or os.path.basename(e["path"]).endswith(("_collected", "_processed"))}
+
+        def after(n):
+            return n in lockish or n % 3 == 2
+
         def one(n):
             out = os.path.join(d, "crash%d" % n)
             home = os.path.join(d, "home%d" % n)
@@ -167,8 +172,10 @@ def run(chk, scratch):
             if saves_src:
                 sv = os.path.join(d, "saves%d" % n)
                 shutil.copytree(saves_src, sv)
+            # every third crash point: the process dies immediately AFTER the mutation (a marker file exists, nothing written since has
+            # been flushed), otherwise immediately before it
             r1 = runner.run_isoquant(args_for(cfg, d, out, extra, saves=sv), home, mon=["crash"],
-                                     cfg={"crash_root": out, "crash_at": n}, events=os.path.join(d, "ev%d" % n))
+                                     cfg={"crash_root": out, "crash_at": n, "crash_after": after(n)}, events=os.path.join(d, "ev%d" % n))
             r2 = None
             if r1["rc"] == 137:
                 # every second crash point is resumed with another thread count (the resume parser accepts --threads)
@@ -184,14 +191,16 @@ def run(chk, scratch):
             executed += 1
             sites_seen.add(site)
             chk.nontrivial.add(site)
-            wit = {"config": cname, "crash_point": n, "site": site, "options": extra, "resumed_with": "--threads 3" if n % 2 else "the saved options"}
+            wit = {"config": cname, "crash_point": n, "site": site, "options": extra, "resumed_with": "--threads 3" if n % 2 else "the saved options",
+                   "killed": "after the mutation" if after(n) else "before the mutation"}
+            chk.count("killed_after_mutation" if after(n) else "killed_before_mutation")
             if r2["rc"] is None:
                 chk.inconclusive.append("%s: watchdog expired while resuming after crash point %d" % (cname, n))
             elif r2["rc"] != 0:
                 last = [l for l in r2["out"].strip().splitlines() if l.strip()][-1:] or [""]
                 err = last[0].split(":")[0][:60]
                 chk.violation("resume-exit-nonzero:crash-site=%s" % site,
-                              "%s: killed before mutation %d (%s); --resume exits %s: %s" % (cname, n, site, r2["rc"], r2["out"][-300:].replace("\n", " | ")),
+                              "%s: killed %s mutation %d (%s); --resume exits %s: %s" % (cname, "after" if after(n) else "before", n, site, r2["rc"], r2["out"][-300:].replace("\n", " | ")),
                               wit)
             else:
                 diffs = runner.compare_trees(os.path.join(clean, _prefix_dir(cfg)), os.path.join(out, _prefix_dir(cfg)))
@@ -202,7 +211,7 @@ def run(chk, scratch):
                 diffs = [x for x in diffs if not x[0].startswith("aux")]
                 for rel, why in diffs[:6]:
                     chk.violation("silent-diff:crash-site=%s:%s" % (site, file_kind(os.path.join(out, rel), out)),
-                                  "%s: killed before mutation %d (%s); --resume exits 0 but %s %s" % (cname, n, site, rel, why), wit)
+                                  "%s: killed %s mutation %d (%s); --resume exits 0 but %s %s" % (cname, "after" if after(n) else "before", n, site, rel, why), wit)
             chk.sample({"config": cname, "crash_point": n, "site": site, "resume_exit": r2["rc"] if r2 else None}, limit=5)
             shutil.rmtree(out, ignore_errors=True)
             shutil.rmtree(os.path.join(d, "saves%d" % n), ignore_errors=True)
